@@ -15,6 +15,12 @@ func VerifyMerkelProof(txid, root, proof []byte, index uint32) bool {
 	var buf []byte
 
 	nodes := len(proof) / sha256.Size
+	// the position must fit the path: otherwise any index with the same low bits
+	// would be accepted for the same leaf (e.g. a coinbase tx presented under a non-zero index)
+	if index>>nodes != 0 {
+		return false
+	}
+
 	if nodes > 0 {
 		buf = make([]byte, sha256.Size*2)
 	}
